@@ -467,6 +467,12 @@ class VM:
             return self.cast(m, v, rv[2], rv[3], self.op_type(fn, rv[1]))
         if k == 'ref':
             pl = rv[2]
+            if pl.proj and pl.proj[-1] == ('deref',):
+                # re-borrow of a pointer-like value that is not modelled as a Ref (&str constants, opaque handles)
+                try:
+                    base = self.read_place(m, fid, Place(pl.local, pl.proj[:-1]))
+                    if isinstance(base, (Str, Opaque)): return base
+                except VMError: pass
             cell, path = self.resolve(m, fid, pl)
             # a reborrow of a slice keeps the slice view
             if path and path[-1][0] == 'sub':
